@@ -325,6 +325,9 @@ func TestVerifSim(t *testing.T) {
 		if hashOut != nil {
 			fmt.Fprintf(hashOut, "%d %s %s\n", idx, res.Hash, res.Verdict)
 		}
+		if d := os.Getenv("VERIF_DUMP"); d != "" {
+			os.WriteFile(fmt.Sprintf("%s/trace-%d-%d.txt", d, idx, os.Getpid()), []byte(strings.Join(res.Trace, "\n")+"\n"), 0o644)
+		}
 		for k, v := range res.Probes {
 			sum.Probes[k] += v
 		}
